@@ -177,7 +177,7 @@ class SourceFile:
             hdr = norm_ws(self.m[mm.start() : ob])
             # drop where clauses for comparison
             hdr_nowhere = norm_ws(re.sub(r"\bwhere\b.*$", "", hdr))
-            if hdr == header or hdr_nowhere == header:
+            if hdr == header or hdr_nowhere == header or (kw == "fn" and re.match(re.escape(header) + r"\s*[(<]", hdr)):
                 cb = match_close(self.m, ob)
                 out.append((ob + 1, cb))
         return out
@@ -686,11 +686,18 @@ class Rewriter:
                 k = e
             lits = arms[:-1]
             last_pat, last_body = arms[-1]
-            if not lits or not all(re.match(r'^"[^"]*"$', p) for p, _ in lits) or not re.match(r"^[a-z_][a-z_0-9]*$", last_pat):
+            def cond(p):
+                # `"lit"`, `"lit" if G`, `_ if G` (guards are evaluated after the pattern matched, as rustc does)
+                mm_ = re.match(r'^("[^"]*")(?:\s+if\s+(.+))?$', p, re.S)
+                if mm_:
+                    return "str_is(s__, %s)" % mm_.group(1) + (" && (%s)" % mm_.group(2) if mm_.group(2) else "")
+                mm_ = re.match(r"^_\s+if\s+(.+)$", p, re.S)
+                return "(%s)" % mm_.group(1) if mm_ else None
+            if not lits or any(cond(p) is None for p, _ in lits) or not re.match(r"^[a-z_][a-z_0-9]*$", last_pat):
                 raise ExtractError("%s: R14: match on string literals has an unsupported shape" % self.label)
             out = "{ let s__ = %s; " % scrut
             for p, b in lits:
-                out += "if str_is(s__, %s) { %s } else " % (p, b)
+                out += "if %s { %s } else " % (cond(p), b)
             out += "{ %s%s } }" % ("" if last_pat == "_" else "let %s = s__; " % last_pat, last_body)
             self.text = self.text[:mm.start()] + out + self.text[cb + 1:]
             n += 1
@@ -699,13 +706,35 @@ class Rewriter:
         return n
 
     # R13 -----------------------------------------------------------------
-    def take_fragment(self, start, sig, tail):
+    def take_fragment(self, start, sig, tail, to_block_end=False, prologue=""):
         """Keep ONE statement of the function: from the literal `start` (must occur once) to the `;`
-        that ends that statement at the same nesting depth; emit `sig { statement tail }`."""
+        that ends that statement at the same nesting depth; emit `sig { statement tail }`.
+        With to_block_end: keep everything from `start` to the end of the block that encloses it (the
+        rest of a match arm's body, say), whose last expression is the value. `prologue` is glue placed
+        first in the body (`use` lines that the original has at the top of the function)."""
         idxs = [mm.start() for mm in re.finditer(re.escape(start), self.text)]
         if len(idxs) != 1:
             raise ExtractError("%s: R13 start %r found %d times" % (self.label, start, len(idxs)))
         m = mask(self.text)
+        if to_block_end:
+            k, depth = idxs[0], 0
+            while k < len(m):
+                ch = m[k]
+                if ch in "([{":
+                    depth += 1
+                elif ch in ")]}":
+                    if depth == 0:
+                        break
+                    depth -= 1
+                k += 1
+            if k >= len(m) or m[k] != "}":
+                raise ExtractError("%s: R13: no enclosing block after %r" % (self.label, start))
+            stmt = self.text[idxs[0]:k].rstrip()
+            dropped = self.text.count("\n") - stmt.count("\n")
+            self.text = "%s {\n        %s\n        %s\n    }" % (sig, prologue, stmt)
+            self.hit("R13-fragment")
+            self.hit("R13-lines-dropped", dropped)
+            return
         k, depth = idxs[0], 0
         while k < len(m):
             ch = m[k]
